@@ -7,12 +7,14 @@ CONSTANTS
   UseScan = "all"
   AddRollback = TRUE
   NsEmptyQuals = FALSE
+  AddTypeError = TRUE
   NsArgs = {0, 2}
+  CompileNs = {0, 2}
   NsAdm = {0, 1, 2}
   QU = {1, 2}
   DU = {"d1", "d2"}
   ClsU = {"U"}
-  BadArgs = {"none"}
+  BadArgs = {"none", "badtype"}
   MaxItems = 2
   MaxCompile = 2
   SameD = FALSE
